@@ -186,6 +186,7 @@ func check(c *Ctx, r *Report) error {
 	cpb := &Cases{Kind: "probe", Imports: imp, Type: "casep", Fn: "mismatchesp", PerShard: 700}
 	cs := &Cases{Kind: "sawtooth", Imports: imp, Type: "cases", Fn: "mismatchess", PerShard: 3000}
 	cf := &Cases{Kind: "profile", Imports: imp, Type: "casef", Fn: "mismatchesf", InfoFn: "inexactf", PerShard: 12}
+	cv := &Cases{Kind: "vertices", Imports: imp, Type: "casev", Fn: "mismatchesv", PerShard: 150}
 	cg := &Cases{Kind: "screw", Imports: imp, Type: "caseg", Fn: "mismatchesg", InfoFn: "inexactg", PerShard: 12}
 	id := 0
 	search := c.Tier == "search"
@@ -808,7 +809,15 @@ func check(c *Ctx, r *Report) error {
 		}
 	}
 
-	for _, x := range []*Cases{cd, cpb, cs, cf, cg} {
+	// the model's smoothed vertex lists against the closed-form outlines, for every row and toleranced radii
+	for _, g := range geos {
+		for _, dr := range []float64{0, -0.1 * g.pitch, 0.37 * g.pitch} {
+			id++
+			cv.Add(fmt.Sprintf("(%d%%N, %s, %s)", id, CF(g.r+dr), CF(g.pitch)))
+			r.Case("vertices", fmt.Sprintf("vert:%x,%x", g.r+dr, g.pitch), true)
+		}
+	}
+	for _, x := range []*Cases{cd, cpb, cs, cf, cg, cv} {
 		if err := x.Write(c.Out); err != nil {
 			return err
 		}
